@@ -92,6 +92,7 @@ var defaultSyms = map[string]string{
 	"strings.ToLower":   "GoLib.toLower",
 	"strings.TrimSpace": "GoLib.trimSpace",
 	"len":               "GoLib.len",
+	"append":            "GoLib.append1",
 	"time.Now":          "now",
 	".After":            "GoLib.timeAfter",
 	".Before":           "GoLib.timeBefore",
@@ -282,6 +283,10 @@ func (x *tr) assigned(stmts []ast.Stmt) []string {
 	set := map[string]bool{}
 	var walk func(n ast.Node) bool
 	note := func(e ast.Expr) {
+		if sym, ok := x.t.Syms[x.src(e)]; ok {
+			set[sym] = true
+			return
+		}
 		switch v := e.(type) {
 		case *ast.Ident:
 			if !decl[v.Name] && v.Name != "_" {
@@ -627,6 +632,9 @@ func (x *tr) assign(lhs ast.Expr, tok token.Token, rhs string, ind string) strin
 		rhs = "(" + cur() + " - " + rhs + ")"
 	default:
 		return x.errf("assignment operator %s", tok)
+	}
+	if sym, ok := x.t.Syms[x.src(lhs)]; ok {
+		return "let " + sym + " := " + rhs + "\n" + ind
 	}
 	switch l := lhs.(type) {
 	case *ast.Ident:
